@@ -36,7 +36,7 @@ CHECKS['C02'] = dict(
    note=PROTO_NOTE, technique='Coq proof (ordering invariants over both machines) + differential correspondence', ref='§5, §6 C02')
 CHECKS['C05'] = dict(
    text="Theorems for every item list: a '??' source never pushes anything; an ephemeral request never rewinds/fast-forwards/discards; the publish gate of a non-balanced "
-        'publisher ignores ephemeral clients, and on a load-balancing publisher an idle listener never vetoes its endpoint (C05_balanced_listener_never_vetoes); the verdict is the verdict on the synchronized clients alone and a listener that leaves with CLOSE leaves the decision as it was (C05_verdict_ignores_listeners, C05_listener_leaving_keeps_decision); machines compared with the real classes; all-or-nothing and ordering of ephemeral portions by oracle.',
+        'publisher ignores ephemeral clients, and on a load-balancing publisher an idle listener never vetoes its endpoint (C05_balanced_listener_never_vetoes); the verdict is the verdict on the synchronized clients alone and a listener that leaves with CLOSE leaves the decision as it was (C05_verdict_ignores_listeners, C05_listener_leaving_keeps_decision); what an ephemeral source hands over arrives in non-decreasing upstream order for every run without a publisher restart (C05_ephemeral_order_nondecreasing) and is of one id per source (C01_no_mixed_ids_ephemeral); a CLOSE ends a half-received set (C05_close_ends_half_received_set); machines compared with the real classes; completeness of ephemeral portions by oracle.',
    note=PROTO_NOTE, technique='Coq proof (trace property over all runs; gate independence lemma) + differential correspondence', ref='§5, §6 C05')
 CHECKS['C07'] = dict(
    text='Theorems for every item list: a balanced publisher writes each frame to exactly one branch and un-requests only that branch; the rejoined stream is strictly increasing; '
